@@ -45,31 +45,59 @@ inline bool check_c04(const Bytes &w, unsigned flags, Outcome &o) {
 }
 
 // names: text -> labels -> text round trip through the public API (RDATA name of a PTR record is not hostname-validated)
-inline bool check_name_roundtrip(const ref::Name &n, Outcome &o) {
+// The name is written as RDATA of the last record of a small message.  `decoy`, when given, is written first, so that it is in the writer's
+// compression table: a name whose *text* ends in the decoy's text after an escaped dot ("a\.example.com" after "example.com") must still be
+// written as its own labels.
+// Presentation text in the two styles RFC 1035 section 5.1 allows: every special octet as \DDD (style 0), or "\X" for printable special
+// characters such as "\." and "\\" (style 1, which is also what the library itself prints).
+inline std::string name_text(const ref::Name &n, int style) {
+  if (style == 0) return ref::escape_name(n);
+  std::string o;
+  for (size_t i = 0; i < n.labels.size(); i++) { if (i) o += '.';
+    for (unsigned char c : n.labels[i]) { if (c == '.' || c == '\\' || c == '"' || c == ';' || c == '(' || c == ')' || c == '@' || c == '$') { o += '\\'; o += (char)c; } else if (c > 0x20 && c < 0x7f) o += (char)c; else { char b[8]; snprintf(b, sizeof b, "\\%03u", (unsigned)c); o += b; } } }
+  return o;
+}
+inline bool check_name_roundtrip_in(const ref::Name &n, const ref::Name *decoy, int style, Outcome &o) {
   RecGuard g;
   if (ares_dns_record_create(&g.r, 1, 0, ARES_OPCODE_QUERY, ARES_RCODE_NOERROR) != ARES_SUCCESS) return true;
   if (ares_dns_record_query_add(g.r, "q.test", ARES_REC_TYPE_PTR, ARES_CLASS_IN) != ARES_SUCCESS) return true;
-  ares_dns_rr_t *rr = nullptr;
+  ares_dns_rr_t *rr = nullptr; size_t idx = 0;
+  if (decoy) {
+    if (ares_dns_record_rr_add(&rr, g.r, ARES_SECTION_ANSWER, "q.test", ARES_REC_TYPE_PTR, ARES_CLASS_IN, 1) != ARES_SUCCESS) return true;
+    if (ares_dns_rr_set_str(rr, ARES_RR_PTR_DNAME, name_text(*decoy, style).c_str()) != ARES_SUCCESS) return true;
+    idx = 1;
+  }
   if (ares_dns_record_rr_add(&rr, g.r, ARES_SECTION_ANSWER, "q.test", ARES_REC_TYPE_PTR, ARES_CLASS_IN, 1) != ARES_SUCCESS) return true;
-  std::string text = ref::escape_name(n);
+  std::string text = name_text(n, style);
   if (ares_dns_rr_set_str(rr, ARES_RR_PTR_DNAME, text.c_str()) != ARES_SUCCESS) return true;
   BufGuard b; size_t len = 0;
   ares_status_t st = ares_dns_write(g.r, &b.p, &len);
   size_t wire_len = 1; for (auto &l : n.labels) wire_len += 1 + l.size();
   if (st != ARES_SUCCESS) {
     count("c04.name_write_rejected");
-    if (wire_len <= 255 && text.size() <= 255) { o.sig = "C04.name-write-rejected"; o.detail = "valid name rejected by writer: " + text; return false; }
-    return true;   // long presentation forms: the writer documents a 255-character text limit (counted, not asserted)
+    // a name of at most 255 octets on the wire is a valid name however long its escaped text is (each octet may take four characters)
+    if (wire_len <= 255 && st != ARES_ENOMEM) { o.sig = decoy ? "C04.name-write-rejected-after-similar-name" : "C04.name-write-rejected"; o.detail = std::string("valid name rejected by writer (") + ares_strerror((int)st) + "): " + text.substr(0, 300) + (decoy ? " written after " + name_text(*decoy, style).substr(0, 200) : ""); return false; }
+    return true;
   }
+  if (text.size() > 255) count("c04.name_roundtrips_text_over_255");
   ref::Msg m; ref::Verdict v = ref::decode(b.p, len, m);
-  if (!v.lenient_ok || m.sec[0].size() != 1 || m.sec[0][0].fields.size() != 1) { o.sig = "C04.name-write-unparseable"; o.detail = v.reason; return false; }
-  if (m.sec[0][0].fields[0].name != n) { o.sig = "C04.name-escape-roundtrip"; o.detail = "wrote " + text + " got " + name_hex(m.sec[0][0].fields[0].name) + " want " + name_hex(n); return false; }
+  if (!v.lenient_ok || m.sec[0].size() != idx + 1 || m.sec[0][idx].fields.size() != 1) { o.sig = "C04.name-write-unparseable"; o.detail = v.reason; return false; }
+  if (m.sec[0][idx].fields[0].name != n) { o.sig = "C04.name-escape-roundtrip"; o.detail = "wrote " + text + " got " + name_hex(m.sec[0][idx].fields[0].name) + " want " + name_hex(n); return false; }
   // and back through the parser's own escaping
   RecGuard g2; if (ares_dns_parse(b.p, len, 0, &g2.r) != ARES_SUCCESS) { o.sig = "C04.name-reparse"; return false; }
-  const ares_dns_rr_t *r2 = ares_dns_record_rr_get_const(g2.r, ARES_SECTION_ANSWER, 0);
+  const ares_dns_rr_t *r2 = ares_dns_record_rr_get_const(g2.r, ARES_SECTION_ANSWER, idx);
   std::string back = text_name_hex(ares_dns_rr_get_str(r2, ARES_RR_PTR_DNAME));
   if (back != name_hex(n)) { o.sig = "C04.name-escape-roundtrip"; o.detail = "parser text does not decode to the label bytes: " + back + " want " + name_hex(n); return false; }
-  count("c04.name_roundtrips");
+  count(decoy ? "c04.name_roundtrips_after_decoy" : "c04.name_roundtrips");
+  return true;
+}
+inline bool check_name_roundtrip(const ref::Name &n, Outcome &o) {
+  if (!check_name_roundtrip_in(n, nullptr, 0, o) || !check_name_roundtrip_in(n, nullptr, 1, o)) return false;
+  // decoy: what follows the first dot *inside* a label, plus the remaining labels
+  for (size_t i = 0; i < n.labels.size(); i++) { size_t d = n.labels[i].find('.'); if (d == std::string::npos) continue;
+    ref::Name dec; std::string rest = n.labels[i].substr(d + 1); if (!rest.empty()) dec.labels.push_back(rest); for (size_t j = i + 1; j < n.labels.size(); j++) dec.labels.push_back(n.labels[j]);
+    if (dec.labels.empty()) break;
+    return check_name_roundtrip_in(n, &dec, 0, o) && check_name_roundtrip_in(n, &dec, 1, o); }
   return true;
 }
 
